@@ -1,26 +1,696 @@
 package main
 
+import (
+	"fmt"
+	"go/constant"
+	"go/token"
+	"sort"
+	"strings"
+
+	"golang.org/x/tools/go/ssa"
+)
+
 func init() {
 	register(&PropSpec{
 		ID:        "C19",
-		Technique: "static analysis: SSA edge-dominance (must-pass-through success edges) for the temp→fsync→close→rename→fsync-dir order, call-shape and who-may-call confinement",
-		Pkgs:      []string{"./pkg/controller/statefile/...", "./pkg/controller/state/..."},
-		Explain:   "Decides the structural clause: on every path of statefile.Store.Save the rename onto the state path happens only after CreateTemp, Write, Sync and Close of the temp file all succeeded (in that order), the success return happens only after the directory fsync succeeded, the rename source is the temp file's own name, nothing else in the package writes files, and Load/Decode return a state only behind the checksum/schema/validate checks; no Write/Sync/Close/Rename error is dropped on the success path. NOT decided: POSIX rename/fsync semantics (trusted), checksum collision resistance, behaviour after an actual crash.",
-		Run:       c19,
+		Technique: "static analysis: SSA edge-dominance (must-pass-through success edges) for the temp→write→fsync→close→rename→fsync-dir order, argument-shape/value-resolution checks, file-effect whitelist and who-may-write confinement, checksum field coverage",
+		Pkgs:      []string{"./pkg/controller/statefile/...", "./pkg/controller/state/...", "./pkg/controller"},
+		Explain: "Decides the structural clauses of the atomic-replace protocol: in statefile.Store.Save the rename onto s.path is reachable only after CreateTemp (in filepath.Dir(s.path)), Write of the complete state.Encode output, Sync and Close of that same temp file all succeeded, the success return only after the rename and the directory fsync succeeded, the rename source and the deferred Remove target are the CreateTemp name, no Write/Sync/Rename/CreateTemp error is dropped, and the statefile package performs no other file-system mutation (whitelist of os/io calls per function); Store.path is never reassigned and the literal file name is built only in three enumerated controller-runtime functions, which never write file contents. " +
+			"Load returns a state only as the value of state.Decode behind Decode == nil; Decode succeeds only behind json decode ok, no trailing token, schema version, non-empty checksum, checksum equality against Checksum of the very object it returns, and Validate; checksumView covers every ClusterState field but Checksum, and Encode stores the checksum before marshalling. " +
+			"NOT decided: POSIX rename/fsync semantics (trusted), CRC32C collision resistance, json canonical-form stability, behaviour after an actual crash, that the whole-file Rename/Remove of the mirror-promotion path picks the right file.",
+		Run: c19,
+		Mutants: []Mutant{
+			{Name: "save-drop-fsync", File: "pkg/controller/statefile/store.go",
+				Old:    "if err := tmp.Sync(); err != nil {\n\t\t_ = tmp.Close()\n\t\treturn fmt.Errorf(\"statefile: fsync temp %s: %w\", tmpPath, err)\n\t}\n",
+				New:    "",
+				Expect: "C19/R1-order/*os.Rename*Sync*"},
+			{Name: "save-ignore-write-error", File: "pkg/controller/statefile/store.go",
+				Old:    "if _, err := tmp.Write(data); err != nil {\n\t\t_ = tmp.Close()\n\t\treturn fmt.Errorf(\"statefile: write temp %s: %w\", tmpPath, err)\n\t}",
+				New:    "_, _ = tmp.Write(data)",
+				Expect: "C19/R1-order/*os.Rename*Write*"},
+			{Name: "save-ignore-close-error", File: "pkg/controller/statefile/store.go",
+				Old:    "if err := tmp.Close(); err != nil {\n\t\treturn fmt.Errorf(\"statefile: close temp %s: %w\", tmpPath, err)\n\t}",
+				New:    "_ = tmp.Close()",
+				Expect: "C19/R1-order/*os.Rename*Close*"},
+			{Name: "save-rename-before-fsync", File: "pkg/controller/statefile/store.go",
+				Old:    "if err := tmp.Sync(); err != nil {\n\t\t_ = tmp.Close()\n\t\treturn fmt.Errorf(\"statefile: fsync temp %s: %w\", tmpPath, err)\n\t}\n",
+				New:    "if err := os.Rename(tmpPath, s.path); err != nil {\n\t\t_ = tmp.Close()\n\t\treturn err\n\t}\n\tif err := tmp.Sync(); err != nil {\n\t\t_ = tmp.Close()\n\t\treturn fmt.Errorf(\"statefile: fsync temp %s: %w\", tmpPath, err)\n\t}\n",
+				Expect: "C19/R1-order/*os.Rename*Sync*"},
+			{Name: "save-temp-in-other-dir", File: "pkg/controller/statefile/store.go",
+				Old: "os.CreateTemp(dir, base+\".*.tmp\")", New: "os.CreateTemp(\"\", base+\".*.tmp\")",
+				Expect: "C19/R1-shape/*os.CreateTemp*"},
+			{Name: "save-no-dir-fsync", File: "pkg/controller/statefile/store.go",
+				Old:    "if err := syncDir(dir); err != nil {\n\t\treturn err\n\t}",
+				New:    "_ = syncDir(dir)",
+				Expect: "C19/R1-order/*syncDir*"},
+			{Name: "syncdir-no-sync", File: "pkg/controller/statefile/store.go",
+				Old:    "if err := d.Sync(); err != nil {\n\t\treturn fmt.Errorf(\"statefile: fsync dir %s: %w\", dir, err)\n\t}\n",
+				New:    "",
+				Expect: "C19/R1-order/pkg/controller/statefile.syncDir*"},
+			{Name: "save-writes-in-place", File: "pkg/controller/statefile/store.go",
+				Old: "if err := os.Rename(tmpPath, s.path); err != nil {", New: "if err := os.WriteFile(s.path, data, 0o600); err != nil {",
+				Expect: "C19/R2-confine/*os.WriteFile*"},
+			{Name: "save-cleanup-removes-state-file", File: "pkg/controller/statefile/store.go",
+				Old: "_ = os.Remove(tmpPath)", New: "_ = os.Remove(s.path)",
+				Expect: "C19/R1-shape/*os.Remove*"},
+			{Name: "save-renames-stale-name", File: "pkg/controller/statefile/store.go",
+				Old: "tmpPath := tmp.Name()", New: "tmpPath := s.path + \".tmp\"",
+				Expect: "C19/R1-shape/*os.Rename*"},
+			{Name: "load-ignores-decode-error", File: "pkg/controller/statefile/store.go",
+				Old:    "st, err := state.Decode(data)\n\tif err != nil {\n\t\treturn state.ClusterState{}, err\n\t}",
+				New:    "st, _ := state.Decode(data)",
+				Expect: "C19/R3-load/*"},
+			{Name: "decode-skips-checksum-compare", File: "pkg/controller/state/codec.go",
+				Old:    "if actual != expected {\n\t\treturn ClusterState{}, fmt.Errorf(\"%w: expected %s got %s\", ErrChecksumMismatch, expected, actual)\n\t}",
+				New:    "_ = actual",
+				Expect: "C19/R3-decode/*Checksum ==*"},
+			{Name: "decode-accepts-missing-checksum", File: "pkg/controller/state/codec.go",
+				Old:    "if actual == \"\" {\n\t\treturn ClusterState{}, fmt.Errorf(\"%w: missing checksum\", ErrChecksumMismatch)\n\t}",
+				New:    "if actual == \"\" {\n\t\treturn st, nil\n\t}",
+				Expect: "C19/R3-decode/*"},
+			{Name: "decode-skips-validate", File: "pkg/controller/state/codec.go",
+				Old:    "st.Checksum = expected\n\tif err := st.Validate(); err != nil {\n\t\treturn ClusterState{}, err\n\t}",
+				New:    "st.Checksum = expected",
+				Expect: "C19/R3-decode/*Validate*"},
+			{Name: "decode-allows-trailing-bytes", File: "pkg/controller/state/codec.go",
+				Old:    "if err := decoder.Decode(&trailing); err != io.EOF {",
+				New:    "if err := decoder.Decode(&trailing); err != io.EOF && err != nil {",
+				Expect: "C19/R3-decode/*io.EOF*"},
+			{Name: "checksum-forgets-tasks", File: "pkg/controller/state/codec.go",
+				Old: "\t\tTasks:             st.Tasks,\n", New: "",
+				Expect: "C19/R3-cover/*"},
+			{Name: "encode-omits-checksum", File: "pkg/controller/state/codec.go",
+				Old: "st.Checksum = checksum\n\treturn json.Marshal(st)", New: "_ = checksum\n\treturn json.Marshal(st)",
+				Expect: "C19/R3-encode/*"},
+		},
 	})
 }
 
 func c19(c *Ctx) {
-	save := c.Fn("pkg/controller/statefile.Store.Save")
-	rename := CallTo{"os.Rename"}
-	c.Guard("R1-order", save, rename,
-		"os.CreateTemp(*)#1 == nil",
-		"os.File.Write(*)#1 == nil",
-		"os.File.Sync(*) == nil",
-		"os.File.Close(*) == nil",
-		"state.Encode(*)#1 == nil || *.Encode(*)#1 == nil",
+	const (
+		sf      = "pkg/controller/statefile."
+		tmpFile = "os.CreateTemp(*)#0"
+		tmpName = "os.File.Name(os.CreateTemp(path/filepath.Dir(s.path), *)#0)"
+		writeOK = "os.File.Write(os.CreateTemp(*)#0, pkg/controller/state.Encode(*)#0)#1 == nil"
+		syncOK  = "os.File.Sync(os.CreateTemp(*)#0) == nil"
+		closeOK = "os.File.Close(os.CreateTemp(*)#0) == nil"
 	)
-	c.Guard("R1-order", save, RetNil{}, "os.Rename(*) == nil", "*.syncDir(*) == nil")
-	c.Guard("R1-order", save, CallTo{"os.File.Sync"}, "os.File.Write(*)#1 == nil")
-	c.Guard("R1-order", save, CallTo{"os.File.Close(*)"}, "os.File.Sync(*) == nil || os.File.Sync(*) != nil || os.File.Write(*)#1 != nil")
+	save := c.Fn(sf + "Store.Save")
+	rename := CallTo{"os.Rename"}
+
+	// R1 order: rename only after the temp file is completely written, fsynced and closed.
+	c.Guard("R1-order", save, rename,
+		"pkg/controller/state.Encode(*)#1 == nil",
+		"os.CreateTemp(*)#1 == nil",
+		writeOK, syncOK, closeOK,
+	)
+	c.Guard("R1-order", save, CallTo{"os.File.Sync"}, writeOK)
+	// the Close whose success admits the rename runs after the successful fsync
+	c.Guard("R1-order", save, InstrFn{"tested os.File.Close", c19TestedCall("os.File.Close")}, syncOK)
+	c.Guard("R1-order", save, RetNil{}, "os.Rename(*) == nil", "pkg/controller/statefile.syncDir(*) == nil")
+	syncDir := c.Fn(sf + "syncDir")
+	c.Guard("R1-order", syncDir, RetNil{}, "os.Open(dir)#1 == nil", "os.File.Sync(os.Open(dir)#0) == nil")
+
+	// R1 shape: which file is created / written / renamed / removed / directory-synced.
+	c.CallShape("R1-shape", save, "os.CreateTemp", "os.CreateTemp(path/filepath.Dir(s.path), *)")
+	c.CallShape("R1-shape", save, "os.File.Write", "os.File.Write("+tmpFile+", pkg/controller/state.Encode(st)#0)")
+	c.CallShape("R1-shape", save, "os.File.Sync", "os.File.Sync("+tmpFile+")")
+	c.CallShape("R1-shape", save, "os.File.Close", "os.File.Close("+tmpFile+")")
+	c.CallShape("R1-shape", save, "pkg/controller/statefile.syncDir", "pkg/controller/statefile.syncDir(path/filepath.Dir(s.path))")
+	c19Args(c, "R1-shape", save, "os.Rename", tmpName, "s.path")
+	c19Args(c, "R1-shape", save, "os.Remove", tmpName)
+
+	// R2 confinement: the statefile package has no other file-system effect; the path is fixed at construction.
+	c19FileEffects(c, "R2-confine", sf+"*", map[string][]string{
+		"os.CreateTemp": {sf + "Store.Save"},
+		"os.File.Write": {sf + "Store.Save"},
+		"os.Rename":     {sf + "Store.Save"},
+		"os.Remove":     {sf + "Store.Save"},
+	})
+	c.ConfineStores("R2-confine", "pkg/controller/statefile.Store.path", true, sf+"New")
+	// the literal file name is built in three enumerated places of the controller runtime …
+	c19ConstConfine(c, "R2-confine", "cluster-state.json", 3, "pkg/controller.Runtime.Start", "pkg/controller.Runtime.PrepareControllerVoter", "pkg/controller.Runtime.loadMirrorStateCandidates")
+	c.ConfineCalls("R2-confine", "pkg/controller/statefile.New", 3, "pkg/controller.Runtime.Start", "pkg/controller.Runtime.PrepareControllerVoter", "pkg/controller.loadMirrorStateCandidate")
+	// … and that package only ever moves/removes whole files, it never writes file contents.
+	for _, callee := range []string{"os.WriteFile", "os.Create", "os.OpenFile", "os.CreateTemp", "os.Truncate", "os.File.Write*", "os.File.Truncate", "os.File.ReadFrom", "io.Copy*", "io.WriteString"} {
+		c.NoCalls("R2-confine", callee, "pkg/controller.*")
+	}
+
+	// R4 errdisc: the errors of the protocol steps are consumed (Close on failing paths is the accepted drop;
+	// the success-path Close is the tested one required by R1-order).
+	if save != nil && syncDir != nil {
+		c.ErrUsed("R4-errdisc", append(WithClosures(save), syncDir),
+			[]string{"os.CreateTemp", "os.File.Write", "os.File.Sync", "os.Rename", "os.Open", "pkg/controller/statefile.syncDir", "pkg/controller/state.Encode"}, nil)
+	}
+
+	// R3 load: only a successfully decoded state is returned.
+	load := c.Fn(sf + "Store.Load")
+	const decoded = "pkg/controller/state.Decode(os.ReadFile(s.path)#0)"
+	c.Guard("R3-load", load, RetNil{}, decoded+"#1 == nil", "os.ReadFile(s.path)#1 == nil")
+	c.Guard("R3-load", load, RetNot{0, []string{"zero:ClusterState"}}, decoded+"#1 == nil")
+	c19RetShape(c, "R3-load", load, 0, "zero:ClusterState", decoded+"#0")
+
+	// R3 decode: success only behind every integrity check.
+	dec := c.Fn("pkg/controller/state.Decode")
+	checks := []string{
+		"encoding/json.Decoder.Decode(*) == nil",
+		"encoding/json.Decoder.Decode(*) == io.EOF",
+		"*.SchemaVersion == 1",
+		"*.Checksum != \"\"",
+		"pkg/controller/state.Checksum(*)#1 == nil",
+		"*.Checksum == pkg/controller/state.Checksum(*)#0",
+		"pkg/controller/state.ClusterState.Validate(*) == nil",
+	}
+	c.Guard("R3-decode", dec, RetNil{}, checks...)
+	c.Guard("R3-decode", dec, RetNot{0, []string{"zero:ClusterState"}}, checks...)
+	c19DecodeSameObject(c, "R3-decode", dec)
+
+	// R3 cover: the checksum covers every persisted field.
+	view := c.Fn("pkg/controller/state.checksumView")
+	if view != nil {
+		c.Cover("R3-cover", []*ssa.Function{view}, "pkg/controller/state.ClusterState", map[string]string{"Checksum": "the checksum itself is excluded from its own input"})
+		c.LiteralComplete("R3-cover", view, "pkg/controller/state.checksumClusterState", nil, nil)
+	}
+	sum := c.Fn("pkg/controller/state.Checksum")
+	c.CallShape("R3-cover", sum, "hash/crc32.Checksum", "hash/crc32.Checksum(encoding/json.Marshal(pkg/controller/state.checksumView(*))#0, *)")
+	c19RetFlows(c, "R3-cover", sum, 0, "hash/crc32.Checksum")
+	c.Guard("R3-cover", sum, RetNil{}, "encoding/json.Marshal(*)#1 == nil")
+
+	// R3 encode: what is written carries the checksum of a validated state.
+	enc := c.Fn("pkg/controller/state.Encode")
+	marshal := CallTo{"encoding/json.Marshal"}
+	c.Guard("R3-encode", enc, marshal, "pkg/controller/state.ClusterState.Validate(*) == nil", "pkg/controller/state.Checksum(*)#1 == nil")
+	c19Before(c, "R3-encode", enc, marshal, StoreTo{Addr: "*.Checksum", Val: "pkg/controller/state.Checksum(*)#0"})
+
+	c.Min("R1-order", 11)
+	c.Min("R1-shape", 7)
+	c.Min("R3-decode", 15)
+}
+
+// c19TestedCall matches calls to callee whose (error) result is used, i.e. not the `_ = f.Close()` cleanup calls.
+func c19TestedCall(callee string) func(in ssa.Instruction) bool {
+	return func(in ssa.Instruction) bool {
+		call, ok := in.(*ssa.Call)
+		return ok && calleeName(&call.Call) == callee && hasRealReferrers(call)
+	}
+}
+
+// c19AllocStores collects every store to the local cell a, following captures into closures;
+// escaped is set when the address is used in any other way.
+func c19AllocStores(cell ssa.Value, depth int) (stores []*ssa.Store, escaped bool) {
+	refs := cell.Referrers()
+	if refs == nil || depth > 4 {
+		return nil, true
+	}
+	for _, r := range *refs {
+		switch x := r.(type) {
+		case *ssa.DebugRef:
+		case *ssa.UnOp:
+			if x.Op != token.MUL {
+				escaped = true
+			}
+		case *ssa.Store:
+			if x.Addr == cell {
+				stores = append(stores, x)
+			} else {
+				escaped = true
+			}
+		case *ssa.MakeClosure:
+			fn, _ := x.Fn.(*ssa.Function)
+			for i, b := range x.Bindings {
+				if b != cell {
+					continue
+				}
+				if fn == nil || i >= len(fn.FreeVars) {
+					escaped = true
+					continue
+				}
+				s, e := c19AllocStores(fn.FreeVars[i], depth+1)
+				stores = append(stores, s...)
+				escaped = escaped || e
+			}
+		default:
+			escaped = true
+		}
+	}
+	return
+}
+
+// c19Resolve looks through loads of single-assignment local variables (also when the
+// variable is captured by a closure), so that rules do not depend on local names.
+func c19Resolve(v ssa.Value, depth int) ssa.Value {
+	v = stripConv(v)
+	if depth > 6 {
+		return v
+	}
+	u, ok := v.(*ssa.UnOp)
+	if !ok || u.Op != token.MUL {
+		return v
+	}
+	var cell ssa.Value
+	switch x := u.X.(type) {
+	case *ssa.Alloc:
+		if spilledParam(x) != nil {
+			return v
+		}
+		cell = x
+	case *ssa.FreeVar:
+		cell = c19Binding(x)
+	}
+	if cell == nil {
+		return v
+	}
+	if _, ok := cell.(*ssa.Alloc); !ok {
+		return v
+	}
+	stores, escaped := c19AllocStores(cell, 0)
+	if escaped || len(stores) != 1 {
+		return v
+	}
+	return c19Resolve(stores[0].Val, depth+1)
+}
+
+// c19Binding finds the value bound to free variable fv where its closure is created.
+func c19Binding(fv *ssa.FreeVar) ssa.Value {
+	fn := fv.Parent()
+	par := fn.Parent()
+	if par == nil {
+		return nil
+	}
+	idx := -1
+	for i, f := range fn.FreeVars {
+		if f == fv {
+			idx = i
+		}
+	}
+	var out ssa.Value
+	n := 0
+	for _, b := range par.Blocks {
+		for _, in := range b.Instrs {
+			if mc, ok := in.(*ssa.MakeClosure); ok && mc.Fn == ssa.Value(fn) && idx >= 0 && idx < len(mc.Bindings) {
+				out = mc.Bindings[idx]
+				n++
+			}
+		}
+	}
+	if n != 1 {
+		return nil
+	}
+	if inner, ok := out.(*ssa.FreeVar); ok {
+		return c19Binding(inner)
+	}
+	return out
+}
+
+// c19Args: every call to callee in fn or its closures has (resolved) leading arguments of the given shapes.
+func c19Args(c *Ctx, rule string, fn *ssa.Function, callee string, shapes ...string) {
+	if fn == nil {
+		return
+	}
+	fname := c.P.Name(fn)
+	n := 0
+	var bad []string
+	badPos := ""
+	for _, f := range WithClosures(fn) {
+		for _, b := range f.Blocks {
+			for _, in := range b.Instrs {
+				ci, ok := in.(ssa.CallInstruction)
+				if !ok || calleeName(ci.Common()) != callee {
+					continue
+				}
+				n++
+				args := callArgs(ci.Common())
+				for i, sh := range shapes {
+					got := "<missing>"
+					if i < len(args) {
+						got = Path(c19Resolve(args[i], 0))
+					}
+					if !glob(sh, got) {
+						bad = append(bad, fmt.Sprintf("arg %d is %s at %s", i, got, c.P.InstrPos(in)))
+						if badPos == "" {
+							badPos = c.P.InstrPos(in)
+						}
+					}
+				}
+			}
+		}
+	}
+	c.CallSites += n
+	construct := fname + "#args:" + callee
+	switch {
+	case n == 0:
+		c.add("shape", rule, construct, Undecided, c.P.Pos(fn.Pos()), "no call to "+callee+" in "+fname+" or its closures (vacuous)")
+	case len(bad) > 0:
+		c.add("shape", rule, construct, Violated, badPos, fmt.Sprintf("%s must be called with %v (locals resolved to their single definition): %s", callee, shapes, strings.Join(bad, "; ")))
+	default:
+		c.add("shape", rule, construct, Held, c.P.Pos(fn.Pos()), fmt.Sprintf("%d call(s) to %s, arguments resolve to %v", n, callee, shapes))
+	}
+}
+
+// c19FileEffects: inside functions matching scope every call into os/io/syscall is either a
+// read-only/handle operation or a listed mutating operation inside its listed owner function.
+func c19FileEffects(c *Ctx, rule, scope string, mutating map[string][]string) {
+	readOnly := []string{
+		"os.ReadFile", "os.Open", "os.Stat", "os.Lstat", "os.ReadDir", "os.IsNotExist", "os.IsExist", "os.Getpid",
+		"os.File.Name", "os.File.Sync", "os.File.Close", "os.File.Stat", "os.File.Read", "os.File.ReadAt", "os.File.Fd",
+		"os.init", "io.init", "io.ReadAll", "io.ReadFull",
+	}
+	fns := c.Fns(scope)
+	seen := map[string]int{}
+	bad := map[string][]string{}
+	badPos := map[string]string{}
+	n := 0
+	for _, fn := range fns {
+		name := c.P.Name(fn)
+		for _, b := range fn.Blocks {
+			for _, in := range b.Instrs {
+				ci, ok := in.(ssa.CallInstruction)
+				if !ok {
+					continue
+				}
+				cn := calleeName(ci.Common())
+				if !globAny([]string{"os.*", "io.*", "io/ioutil.*", "io/fs.*", "syscall.*", "golang.org/x/sys/*", "bufio.*"}, cn) {
+					continue
+				}
+				n++
+				if globAny(readOnly, cn) {
+					continue
+				}
+				seen[cn]++
+				owners, ok := mutating[cn]
+				if ok && (globAny(owners, name) || globAny(owners, rootName(name))) {
+					continue
+				}
+				bad[cn] = append(bad[cn], fmt.Sprintf("%s at %s", name, c.P.InstrPos(in)))
+				if badPos[cn] == "" {
+					badPos[cn] = c.P.InstrPos(in)
+				}
+			}
+		}
+	}
+	c.CallSites += n
+	var keys []string
+	for k := range bad {
+		keys = append(keys, k)
+	}
+	sort.Strings(keys)
+	for _, k := range keys {
+		c.add("confine", rule, "file-effect:"+k+"@"+scope, Violated, badPos[k], fmt.Sprintf("file-system effect %s outside the atomic-replace protocol (allowed owners %v): %s", k, mutating[k], strings.Join(bad[k], "; ")))
+	}
+	var owned []string
+	for k := range mutating {
+		owned = append(owned, k)
+	}
+	sort.Strings(owned)
+	for _, k := range owned {
+		if len(bad[k]) > 0 {
+			continue
+		}
+		if seen[k] == 0 {
+			c.add("confine", rule, "file-effect:"+k+"@"+scope, Undecided, "", "listed protocol step "+k+" is not called at all (the protocol changed; update the rule table)")
+			continue
+		}
+		c.add("confine", rule, "file-effect:"+k+"@"+scope, Held, "", fmt.Sprintf("%d call(s), all inside %v", seen[k], mutating[k]))
+	}
+	if len(keys) == 0 {
+		c.add("confine", rule, "file-effect:other@"+scope, Held, "", fmt.Sprintf("%d function(s), %d os/io call(s): every one is read-only or a listed protocol step", len(fns), n))
+	}
+}
+
+// c19ConstConfine: string constants containing substr occur only in the allowed functions.
+func c19ConstConfine(c *Ctx, rule, substr string, min int, allowed ...string) {
+	n := 0
+	var bad []string
+	badPos := ""
+	where := map[string]int{}
+	for _, fn := range c.P.AllFuncs {
+		name := c.P.Name(fn)
+		for _, b := range fn.Blocks {
+			for _, in := range b.Instrs {
+				for _, op := range in.Operands(nil) {
+					if op == nil || *op == nil {
+						continue
+					}
+					k, ok := (*op).(*ssa.Const)
+					if !ok || k.Value == nil || k.Value.Kind() != constant.String || !strings.Contains(constant.StringVal(k.Value), substr) {
+						continue
+					}
+					if strings.ContainsAny(constant.StringVal(k.Value), " %\n") {
+						continue // message text, not a path element
+					}
+					n++
+					where[name]++
+					if !globAny(allowed, name) && !globAny(allowed, rootName(name)) {
+						bad = append(bad, fmt.Sprintf("%s at %s", name, c.P.InstrPos(in)))
+						if badPos == "" {
+							badPos = c.P.InstrPos(in)
+						}
+					}
+				}
+			}
+		}
+	}
+	construct := "const:" + substr
+	switch {
+	case len(bad) > 0:
+		c.add("confine", rule, construct, Violated, badPos, fmt.Sprintf("the state file name %q is built outside the enumerated functions %v: %s", substr, allowed, strings.Join(bad, "; ")))
+	case n < min:
+		c.add("confine", rule, construct, Undecided, "", fmt.Sprintf("%d use(s) of %q found, hand-confirmed minimum %d", n, substr, min))
+	default:
+		c.add("confine", rule, construct, Held, "", fmt.Sprintf("%d use(s) of %q, all inside %v: %s", n, substr, allowed, countsString(where)))
+	}
+}
+
+// c19RetShape: result idx of every return of fn renders to one of the globs.
+func c19RetShape(c *Ctx, rule string, fn *ssa.Function, idx int, globs ...string) {
+	if fn == nil {
+		return
+	}
+	fname := c.P.Name(fn)
+	var bad []string
+	n := 0
+	for _, in := range instrsMatching(fn, AnyRet{}) {
+		ret := in.(*ssa.Return)
+		if idx >= len(ret.Results) {
+			continue
+		}
+		n++
+		if got := Path(retOperand(ret, idx)); !globAny(globs, got) {
+			bad = append(bad, got+" at "+c.P.InstrPos(in))
+		}
+	}
+	construct := fmt.Sprintf("%s#result[%d]∈%v", fname, idx, globs)
+	switch {
+	case n == 0:
+		c.add("shape", rule, construct, Undecided, c.P.Pos(fn.Pos()), "no return found")
+	case len(bad) > 0:
+		c.add("shape", rule, construct, Violated, c.P.Pos(fn.Pos()), "returned value of an unexpected origin: "+strings.Join(bad, "; "))
+	default:
+		c.add("shape", rule, construct, Held, c.P.Pos(fn.Pos()), fmt.Sprintf("%d return(s), each returns one of %v", n, globs))
+	}
+}
+
+// c19Before: every instruction matching eff is reached from the entry only after an instruction matching barrier.
+func c19Before(c *Ctx, rule string, fn *ssa.Function, eff, barrier Effect) {
+	if fn == nil {
+		return
+	}
+	fname := c.P.Name(fn)
+	construct := fname + "#" + barrier.String() + " before " + eff.String()
+	effs := instrsMatching(fn, eff)
+	if len(effs) == 0 || len(instrsMatching(fn, barrier)) == 0 {
+		c.add("order", rule, construct, Violated, c.P.Pos(fn.Pos()), fmt.Sprintf("%d effect site(s) %q, %d site(s) of the required preceding step %q", len(effs), eff.String(), len(instrsMatching(fn, barrier)), barrier.String()))
+		return
+	}
+	// blocks enterable without having executed the barrier, and how far into them
+	limit := map[*ssa.BasicBlock]int{}
+	work := []*ssa.BasicBlock{fn.Blocks[0]}
+	seen := map[*ssa.BasicBlock]bool{fn.Blocks[0]: true}
+	for len(work) > 0 {
+		b := work[len(work)-1]
+		work = work[:len(work)-1]
+		stop := -1
+		for i, in := range b.Instrs {
+			if barrier.Match(in) {
+				stop = i
+				break
+			}
+		}
+		if stop >= 0 {
+			limit[b] = stop
+			continue
+		}
+		limit[b] = len(b.Instrs)
+		for _, s := range b.Succs {
+			if !seen[s] {
+				seen[s] = true
+				work = append(work, s)
+			}
+		}
+	}
+	var bad []string
+	for _, e := range effs {
+		if lim, ok := limit[e.Block()]; ok && indexIn(e.Block(), e) < lim {
+			bad = append(bad, c.P.InstrPos(e))
+		}
+	}
+	if len(bad) > 0 {
+		c.add("order", rule, construct, Violated, bad[0], fmt.Sprintf("in %s %q is reachable without first executing %q (at %s)", fname, eff.String(), barrier.String(), strings.Join(bad, ", ")))
+		return
+	}
+	c.add("order", rule, construct, Held, c.P.InstrPos(effs[0]), fmt.Sprintf("%d site(s) of %q, each reachable only after %q", len(effs), eff.String(), barrier.String()))
+}
+
+// c19RetFlows: on every success return of fn, result idx is data-dependent on a call to callee.
+func c19RetFlows(c *Ctx, rule string, fn *ssa.Function, idx int, callee string) {
+	if fn == nil {
+		return
+	}
+	fname := c.P.Name(fn)
+	construct := fmt.Sprintf("%s#result[%d]←%s", fname, idx, callee)
+	var depends func(v ssa.Value, seen map[ssa.Value]bool) bool
+	depends = func(v ssa.Value, seen map[ssa.Value]bool) bool {
+		if v == nil || seen[v] {
+			return false
+		}
+		seen[v] = true
+		if call, ok := v.(*ssa.Call); ok && calleeName(&call.Call) == callee {
+			return true
+		}
+		// values stored into a local cell (e.g. the varargs array) flow to whoever reads the cell
+		switch x := v.(type) {
+		case *ssa.Alloc:
+			for _, r := range *x.Referrers() {
+				switch y := r.(type) {
+				case *ssa.Store:
+					if depends(y.Val, seen) {
+						return true
+					}
+				case *ssa.IndexAddr:
+					for _, rr := range *y.Referrers() {
+						if st, ok := rr.(*ssa.Store); ok && depends(st.Val, seen) {
+							return true
+						}
+					}
+				}
+			}
+		}
+		if in, ok := v.(ssa.Instruction); ok {
+			for _, op := range in.Operands(nil) {
+				if op != nil && *op != nil && depends(*op, seen) {
+					return true
+				}
+			}
+		}
+		return false
+	}
+	var bad []string
+	n := 0
+	for _, in := range instrsMatching(fn, RetNil{}) {
+		ret := in.(*ssa.Return)
+		n++
+		if !depends(retOperand(ret, idx), map[ssa.Value]bool{}) {
+			bad = append(bad, c.P.InstrPos(in))
+		}
+	}
+	switch {
+	case n == 0:
+		c.add("shape", rule, construct, Undecided, c.P.Pos(fn.Pos()), "no success return")
+	case len(bad) > 0:
+		c.add("shape", rule, construct, Violated, bad[0], fmt.Sprintf("%s returns a value that does not depend on %s (at %s)", fname, callee, strings.Join(bad, ", ")))
+	default:
+		c.add("shape", rule, construct, Held, c.P.Pos(fn.Pos()), fmt.Sprintf("%d success return(s), result is computed from %s", n, callee))
+	}
+}
+
+// c19Root strips loads, field selections and interface boxing down to the local cell.
+func c19Root(v ssa.Value) ssa.Value {
+	for {
+		switch x := v.(type) {
+		case *ssa.UnOp:
+			if x.Op != token.MUL {
+				return v
+			}
+			v = x.X
+		case *ssa.FieldAddr:
+			v = x.X
+		case *ssa.MakeInterface:
+			v = x.X
+		case *ssa.Convert:
+			v = x.X
+		case *ssa.ChangeType:
+			v = x.X
+		default:
+			return v
+		}
+	}
+}
+
+// c19DecodeSameObject: the object json-decoded from the input, the object whose checksum is
+// recomputed, the object whose stored checksum is compared, the validated object and the object
+// returned on success are one and the same local cell.
+func c19DecodeSameObject(c *Ctx, rule string, fn *ssa.Function) {
+	if fn == nil {
+		return
+	}
+	fname := c.P.Name(fn)
+	construct := fname + "#verified-object-is-returned-object"
+	roles := map[string][]ssa.Value{}
+	for _, b := range fn.Blocks {
+		for _, in := range b.Instrs {
+			switch x := in.(type) {
+			case *ssa.Call:
+				switch calleeName(&x.Call) {
+				case "pkg/controller/state.Checksum":
+					roles["checksummed"] = append(roles["checksummed"], c19Root(x.Call.Args[0]))
+				case "pkg/controller/state.ClusterState.Validate":
+					roles["validated"] = append(roles["validated"], c19Root(x.Call.Args[0]))
+				case "encoding/json.Decoder.Decode":
+					r := c19Root(x.Call.Args[1])
+					if a, ok := r.(*ssa.Alloc); ok && typeBaseName(a.Type()) == "ClusterState" {
+						roles["decoded"] = append(roles["decoded"], r)
+					}
+				}
+			case *ssa.BinOp:
+				if x.Op != token.EQL && x.Op != token.NEQ {
+					continue
+				}
+				for _, pair := range [][2]ssa.Value{{x.X, x.Y}, {x.Y, x.X}} {
+					if ex, ok := pair[1].(*ssa.Extract); ok && ex.Index == 0 {
+						if call, ok := ex.Tuple.(*ssa.Call); ok && calleeName(&call.Call) == "pkg/controller/state.Checksum" {
+							roles["compared"] = append(roles["compared"], c19Root(pair[0]))
+						}
+					}
+				}
+			case *ssa.Return:
+				if (RetNil{}).Match(in) {
+					roles["returned"] = append(roles["returned"], c19Root(retOperand(x, 0)))
+				}
+			}
+		}
+	}
+	var cell ssa.Value
+	var problems []string
+	for _, role := range []string{"decoded", "checksummed", "compared", "validated", "returned"} {
+		if len(roles[role]) == 0 {
+			problems = append(problems, "no "+role+" object found")
+			continue
+		}
+		for _, r := range roles[role] {
+			if _, ok := r.(*ssa.Alloc); !ok {
+				problems = append(problems, role+" object is not a local cell: "+Path(r))
+				continue
+			}
+			if cell == nil {
+				cell = r
+			} else if r != cell {
+				problems = append(problems, role+" object differs from the decoded one")
+			}
+		}
+	}
+	if len(problems) > 0 {
+		c.add("shape", rule, construct, Violated, c.P.Pos(fn.Pos()), strings.Join(problems, "; "))
+		return
+	}
+	c.add("shape", rule, construct, Held, c.P.Pos(fn.Pos()), "the json-decoded, checksummed, compared, validated and returned ClusterState are the same local object")
 }
